@@ -62,13 +62,13 @@ struct TagStream : public Aesmode {
 };
 
 struct Case {
-  int kind; // 0 real-enc, 1 real-dec, 2 real-verify, 3 tag-enc, 4 tag-dec
+  int kind; // 0 real-enc, 1 real-dec, 2 real-verify, 3 tag-enc, 4 tag-dec, 5 forged-dec (valid tag, arbitrary body length)
   size_t n;
   int T, cmode, hmode;
   vsched::Config sc;
   uint64_t dataseed;
 };
-const char *KIND[] = {"real-enc", "real-dec", "real-verify", "tag-enc", "tag-dec"};
+const char *KIND[] = {"real-enc", "real-dec", "real-verify", "tag-enc", "tag-dec", "forged-dec"};
 const char *STRAT[] = {"uniform", "sticky", "pct", "starve"};
 
 std::string case_json(const Case &c, long long idx) {
@@ -90,7 +90,7 @@ Case make_case(uint64_t seed, long long idx, const std::string &grid, bool thoro
     long off = (long)r.below(19) - 17;
     long nn = (long)base + off;
     c.n = nn < 0 ? (size_t)r.below(3) : (size_t)nn;
-    c.kind = (int)r.below(5);
+    c.kind = (int)r.below(6);
   } else {
     c.T = Ts[r.below(5)];
     size_t chunks = r.below(7);
@@ -103,7 +103,7 @@ Case make_case(uint64_t seed, long long idx, const std::string &grid, bool thoro
     int k = (int)r.below(10);
     c.kind = k < 3 ? 0 : k < 6 ? 1 : k < 8 ? 3 : 4;
   }
-  if (c.kind >= 3) c.n = (c.n / 16) * 16; // tagging streams work on whole blocks
+  if (c.kind == 3 || c.kind == 4) c.n = (c.n / 16) * 16; // tagging streams work on whole blocks
   if (c.kind == 4 && c.n == 0) c.n = 16;   // an empty body is outside the domain of decryption
   c.cmode = (int)r.below(5);
   c.hmode = (int)r.below(3);
@@ -133,7 +133,20 @@ std::string run_case(const Case &c) {
   vsched::init(c.sc, failfn);
   vsched::install_cpu_handler();
   bool ret = true;
-  if (c.kind <= 2) {
+  if (c.kind == 5) {
+    // a key holder re-tagged arbitrary bytes: decrypt may accept or reject, but it must return
+    size_t L = 48 + 20 * (size_t)c.T + c.n;
+    if (L < 74) L = 74;
+    bytes F = r.bytes_(L);
+    memcpy(F.data(), ref::MAGIC, 8);
+    F[8] = (uint8_t)c.cmode; F[9] = (uint8_t)c.hmode;
+    memset(F.data() + 10, 0, 38);
+    bytes tag = ref::hmac(c.hmode, key, 16, F.data() + 48, L - 48);
+    memcpy(F.data() + 10, tag.data(), tag.size());
+    ops::Result d = ops::decrypt(F, key, c.T);
+    vsched::finish();
+    ret = d.ret;
+  } else if (c.kind <= 2) {
     ops::EncParams ep;
     ep.cmode = c.cmode; ep.hmode = c.hmode; ep.T = c.T;
     memcpy(ep.key, key, 16);
